@@ -187,7 +187,7 @@ PROPS["C16"] = {
 }
 PROPS["C15"] = {
     "theorems": ["C15_open_total", "C15_open_total_any_reader", "C15_accepted_archive_safe", "C15_scan_total"],
-    "suites": ["protodec", "tryinit", "hostile", "corrupt", "http", "clicorrupt"], "needs_cli": True,
+    "suites": ["protodec", "tryinit", "hostile", "corrupt", "http", "clicorrupt", "httpclone"], "needs_cli": True,
     "rule": "cases: dictionary bytes (conforming, free-form, mutated, random, nested groups around the recursion limit) through "
             "the real prost decoder vs the model; archives with checksummed hostile fields (indexes, offsets, sizes, chunker "
             "parameters incl. 0 and extremes, enums, missing sub-messages, dictionary size field) through Archive::try_init vs the "
@@ -206,7 +206,7 @@ PROPS["C15"] = {
 PROPS["C04"] = {
     "theorems": ["C04_header_accept_implies", "C04_header_only", "C04_pinned_header_identity", "C04_payload_tamper_safe",
                  "C04_pin_proceeds_only_if_equal", "C04_pin_checked_before_output"],
-    "suites": ["tryinit", "corrupt", "clirefuse", "clicorrupt"], "needs_cli": True,
+    "suites": ["tryinit", "corrupt", "clirefuse", "clicorrupt", "httpclone"], "needs_cli": True,
     "rule": "cases: every single-bit flip and every truncation length of a small archive (exhaustive), sampled flips/truncations, "
             "payload swaps, overwrites, deletions, trailing garbage on larger ones, with and without seeds; scripted servers "
             "returning wrong bytes, short bodies, extra bytes, cuts; --verify-header with mismatching / prefix / empty / matching "
